@@ -155,6 +155,136 @@ async def scenario(client, cfg, order):
     return {"cfg": cfg, "order": list(order), "ev": ev, "delivered": got, "expected_len": len(expected)}
 
 
+# ---------------------------------------------------------------------------------------------------------------
+# Segments whose results combine several elements (windows, tuples, two branches): monitored at property level by
+# Observer.tla against the local twin (values, lineage of every value, elements still held at the end).
+def _x10(x):
+    return x * 10
+
+
+OBS = {
+    # name: (number of sources, dask pipeline, local twin, gated(element value) -> bool)
+    "sliding": (1, lambda S: S[0].scatter().map(F.gated_x10).sliding_window(2, return_partial=False).gather(),
+                lambda S: S[0].map(_x10).sliding_window(2, return_partial=False)),
+    "partition": (1, lambda S: S[0].scatter().map(F.gated_x10).partition(2).gather(),
+                  lambda S: S[0].map(_x10).partition(2)),
+    "buffer_sliding": (1, lambda S: S[0].scatter().map(F.gated_x10).buffer(5).sliding_window(2, return_partial=False).gather(),
+                       lambda S: S[0].map(_x10).sliding_window(2, return_partial=False)),
+    "zip2": (2, lambda S: S[0].scatter().map(F.gated_x10).zip(S[1].scatter()).gather(),
+             lambda S: S[0].map(_x10).zip(S[1])),
+    "union": (1, lambda S: _union(S[0].scatter()), lambda S: S[0].map(_x10).union(S[0].map(F.inc))),
+}
+
+
+def _union(d):
+    return d.map(F.gated_x10).union(d.map(F.inc)).gather()
+
+
+def _freeze(x):
+    return tuple(_freeze(y) for y in x) if isinstance(x, (list, tuple)) else x
+
+
+def _plan(shape, n):
+    """emission plan: element id -> (source index, value); elements of the first source are the gated ones"""
+    nsrc = OBS[shape][0]
+    plan = {}
+    for k in range(1, n * nsrc + 1):
+        si = (k - 1) % nsrc
+        plan[k] = (si, (k - 1) // nsrc + 1 + 100 * si)
+    return plan
+
+
+def obs_twin(shape, n):
+    plan = _plan(shape, n)
+    loop = asyncio.get_event_loop()
+    log = aprobe.Log(loop)
+    # (asynchronous=True: nodes that need a loop bind to this one instead of blocking on the background loop; nothing in
+    # the twin ever waits, so every emit has run to completion when it returns)
+    S = [Stream(asynchronous=True) for _ in range(OBS[shape][0])]
+    node = OBS[shape][2](S)
+    out = []
+
+    class Rec(Stream):
+        def update(self, x, who=None, metadata=None):
+            out.append((_freeze(x), sorted(set(aprobe.enc_md(metadata)))))
+            return []
+    rec = Rec(node)
+    tags = {e: {"tag": e, "ref": aprobe.RC(e, log)} for e in plan}
+    for e, (si, v) in plan.items():
+        S[si].emit(v, metadata=[tags[e]])
+    held = [e for e in tags if tags[e]["ref"].count > 0]
+    del rec
+    return out, held
+
+
+async def obs_scenario(client, cfg, order):
+    shape, n, awaitmode, cons = cfg["shape"], cfg["n"], cfg["await"], cfg["cons"]
+    F.GATES.clear()
+    del F.STARTED[:]
+    expected, held = obs_twin(shape, n)
+    plan = _plan(shape, n)
+    loop = asyncio.get_event_loop()
+    log = aprobe.Log(loop)
+    S = [Stream(asynchronous=True) for _ in range(OBS[shape][0])]
+    node = OBS[shape][1](S)
+    probe = aprobe.Probe(node, log, mode=cons)
+    tags = {e: {"tag": e, "ref": aprobe.RC(e, log)} for e in plan}
+    ev = []
+    state = {"nlog": 0, "d2k": {}}
+    used = set()
+
+    def drain():
+        for e in log.ev[state["nlog"]:]:
+            k = e["ev"]
+            if k == "deliver":
+                val = _freeze(e.get("rawx"))
+                kk = next((i for i, (v, _) in enumerate(expected, start=1) if v == val and i not in used), 0)
+                used.add(kk)
+                state["d2k"][e["d"]] = kk
+                ev.append({"ev": "Deliver", "k": kk})
+                if cons == "sync":
+                    ev.append({"ev": "Consume", "k": kk})
+            elif k == "cons_done" and cons != "sync":
+                ev.append({"ev": "Consume", "k": state["d2k"].get(e["d"], 0)})
+            elif k == "release" and e["fired"]:
+                ev.append({"ev": "Fire", "e": e["tag"]})
+        state["nlog"] = len(log.ev)
+
+    async def settle(cond=None, rounds=400):
+        for _ in range(rounds):
+            await asyncio.sleep(0.005)
+            log.poll()
+            if log.pending and cons != "sync":
+                aprobe.finish_delivery(log, min(log.pending))
+            drain()
+            if cond is not None and cond():
+                return True
+        return cond is None
+
+    async def producer():
+        for e, (si, v) in plan.items():
+            aprobe.do_emit(log, S[si], e, v, [tags[e]])
+            if awaitmode:
+                fut = log.emits[e]
+                while fut is not None and not fut.done():
+                    await asyncio.sleep(0.002)
+                log.poll()
+
+    ptask = asyncio.ensure_future(producer())
+    for v in order:
+        await settle(lambda v=v: v in F.STARTED, rounds=200)
+        F.gate(v).set()
+        await settle(rounds=4)
+    await ptask
+    await settle(lambda: all(e in log.emit_done for e in plan), rounds=600)
+    await settle(rounds=6)
+    drain()
+    ev.append({"ev": "End"})
+    del probe
+    return {"cfg": cfg, "order": list(order), "ne": len(plan), "nd": len(expected), "lineage": [lin for _, lin in expected],
+            "held": held, "ordered": bool(awaitmode), "ev": ev, "expected": [json.dumps(v) for v, _ in expected]}
+
+
 async def amain(a):
     rng = random.Random(a.seed)
     client = await Client(processes=False, asynchronous=True, dashboard_address=None, n_workers=1, threads_per_worker=16)
@@ -171,11 +301,25 @@ async def amain(a):
                     for order in perms:
                         cfg = {"shape": shape, "n": n, "await": awaitmode, "cons": cons}
                         runs.append(await asyncio.wait_for(scenario(client, cfg, order), 60))
+        obs = []
+        for shape in OBS:
+            for awaitmode in (True, False):
+                for cons in ("future", "sync"):
+                    perms = [tuple(range(1, n + 1))] if awaitmode else list(itertools.permutations(range(1, n + 1)))
+                    if a.tier == "quick" and not awaitmode:
+                        perms = [perms[0], perms[-1], rng.choice(perms[1:-1])]
+                    for order in perms:
+                        cfg = {"shape": shape, "n": n, "await": awaitmode, "cons": cons}
+                        obs.append(await asyncio.wait_for(obs_scenario(client, cfg, order), 60))
     finally:
         await client.close()
     for i, r in enumerate(runs, start=1):
         r["id"] = i
+    for i, r in enumerate(obs, start=1):
+        r["id"] = i
     os.makedirs(a.out, exist_ok=True)
+    with open(os.path.join(a.out, "obs.json"), "w") as f:
+        json.dump(obs, f, separators=(",", ":"))
     with open(os.path.join(a.out, "runs.json"), "w") as f:
         json.dump(runs, f, separators=(",", ":"))
     print(json.dumps({"runs": len(runs), "events": sum(len(r["ev"]) for r in runs)}))
